@@ -772,7 +772,24 @@ impl Sim {
     pub fn ledger_matches_queries(&self) -> Result<(), String> {
         let fresh = Ledger::from_storage(&self.chain.store, CODE_CW20);
         if fresh.bal != self.ledger.bal || fresh.supply != self.ledger.supply {
-            return Err("incremental ledger differs from a fresh decode".to_string());
+            let mut diff = vec![];
+            for (k, v) in fresh.bal.iter() {
+                if self.ledger.bal.get(k) != Some(v) {
+                    diff.push(format!("{:?}: fresh {} incremental {:?}", k, v, self.ledger.bal.get(k)));
+                }
+            }
+            for (k, v) in self.ledger.bal.iter() {
+                if !fresh.bal.contains_key(k) {
+                    diff.push(format!("{:?}: only incremental {}", k, v));
+                }
+            }
+            for (k, v) in fresh.supply.iter() {
+                if self.ledger.supply.get(k) != Some(v) {
+                    diff.push(format!("supply {}: fresh {} incremental {:?}", k, v, self.ledger.supply.get(k)));
+                }
+            }
+            diff.truncate(4);
+            return Err(format!("incremental ledger differs from a fresh decode: {}", diff.join("; ")));
         }
         for ((asset, account), v) in self.ledger.bal.iter() {
             let q = if let Some(d) = asset.strip_prefix("n:") {
